@@ -24,6 +24,7 @@ from vlib import core, netgen
 sys.path.insert(0, os.path.join(core.VERIF, 'tools'))
 import tr_stamps as TS
 import tr_sources as SRC
+import tr_equipot as EQP
 
 PID = 'C01'
 MANIFEST = {
@@ -44,12 +45,16 @@ MANIFEST = {
     'note': 'Trusted: Coq kernel/vm_compute; tools/tr_stamps.py; spec coq/theory/Circuit.v (physical semantics, App. B); hand models '
             'coq/theory/MNA.v + props/C01model.v (ordering, assembly, reporting) validated by correspondence; sympy linear solve, '
             'and the eps-limit are modelled as oracles whose contract is checked per case, not verified; node merging is inside the model '
-            '(coq/theory/WireMerge.v, props/C01wire.v; the rule which components imply a wire - W, and ports 1/3 of TL/TP - is mirrored by hand in the check); component '
+            '(coq/theory/WireMerge.v, props/C01wire.v; the rule which components imply a wire - W, and nodes 1/3 of TL/TP - is regenerated from NetlistMixin.equipotential_nodes by tools/tr_equipot.py and must equal the documented rule); component '
             'parameters (Y, Z, Isc, Voc per analysis kind) are inputs of the theorem and are checked against textbook laws by the search oracle.',
     'technique': 'Coq proof over stamps and source definitions translated from source + induction over netlists + in-Coq correspondence evaluation (Q and Q(i)) + textbook-law search oracle',
 }
 
 SRC_OK = [False]
+WIRE_RULES = [None]
+# documented: a wire joins its two nodes; a transmission line / two-port has its two reference terminals (nodes 1 and 3:
+# out-, in-) at one potential ("Assuming V2' = V1'").  The rule regenerated from the source must be this one.
+SPEC_WIRE_RULES = [('eq', 'W', 'all'), ('prefix', 'TL', (1, 3)), ('prefix', 'TP', (1, 3))]
 KINDS = {'dc': 'KDc', 's': 'KS', 'ivp': 'KIvp', 'laplace': 'KLaplace', 'transient': 'KTransient', 't': 'KT', 'time': 'KTime'}
 CNAMES = ['RC', 'L', 'V', 'AM', 'I', 'VCVS', 'VCCS', 'CCCS', 'CCVS', 'K', 'TF', 'GY', 'TL', 'TPA', 'TPB', 'TPG', 'TPH',
           'TPY', 'TPZ', 'TR', 'SPpp', 'SPpm', 'SPppp', 'SPpmm', 'SPppm', 'RV', 'Dummy']
@@ -265,6 +270,10 @@ def oracle(case, kd, s0):
             cur = -cur      # the documented hybrid convention flips source currents only
         elif cur is not None and case.get('convention') == 'active':
             cur = -cur      # the active convention flips every current
+        if (ty.startswith('TL') or ty.startswith('TP')) and len(nn) >= 4:
+            vr1, vr3 = V.get(nn[1]), V.get(nn[3])
+            if vr1 is not None and vr3 is not None and vr1 != vr3:
+                bad.append('%s: the two reference terminals of the two-port are not at one potential' % nm)
         if ty in ('W', 'O', 'P', 'VM', 'K', 'A'):
             if ty == 'W':
                 if v1 != v2:
@@ -485,7 +494,9 @@ def build_checks(ci, case, wres, tr, res, point_eps):
         # kernel of the sequential contraction LT.WireMerge.merge of the wires (hypothesis kern_ok of the theorems
         # merged_to_wires / wires_to_merged / mna_wires of props/C01wire.v), and every terminal index must be the
         # image of its raw node.  Raw ids: ground '0' = -1, the other node names 0, 1, ... in sorted order.
-        if any(e.get('eqn') for e in kd['elements']):
+        if WIRE_RULES[0] is None:
+            res.count('merge_check_skipped_rule_untranslatable')
+        elif any(e.get('eqn') for e in kd['elements']):
             res.count('merge_check_skipped_internal_equipotential_nodes')
         else:
             rid, nxt = {}, 0
@@ -497,10 +508,8 @@ def build_checks(ci, case, wres, tr, res, point_eps):
                     nxt += 1
             wl = []
             for e in kd['elements']:
-                if e['type'] == 'W':
-                    wl.append((e['nodes'][0], e['nodes'][1]))
-                elif e['type'].startswith('TL') or e['type'].startswith('TP'):
-                    wl.append((e['nodes'][1], e['nodes'][3]))      # netlistmixin.equipotential_nodes: V2' = V1' is assumed
+                # which components imply a wire: rules regenerated from NetlistMixin.equipotential_nodes (tools/tr_equipot.py)
+                wl += EQP.wires_of(WIRE_RULES[0], e['type'], e['nodes']) or []
             if all(a in rid and b_ in rid for a, b_ in wl) and all(nd in rid for e in kd['elements'] for nd in e['nodes'][:len(e['nidx'])]):
                 idxf = '(fun x => match x with %s_ => -1 end)' % ''.join(
                     '%d => %d | ' % (rid[nme], kd['node_index'][nme]) for nme in sorted(kd['node_index']) if rid[nme] >= 0)
@@ -641,6 +650,9 @@ CORPUS = [
      'tags': ['corpus', 'wires', 'dc'], 's0': '1/1', 'methods': ['DM', 'GE']},
     {'netlist': ['I1 a 0 step 2', 'W a b', 'W b c', 'W c a', 'R1 c d 3', 'L1 d e 2 1', 'W e f_1', 'W f_1 f_2', 'R2 f_2 0 1', 'E1 g 0 b e 2', 'R3 g 0 4'],
      'tags': ['corpus', 'wires'], 's0': '2/3', 'methods': ['DM', 'LU']},
+    # two-port / transmission line with floating reference terminals (documented: they are at one potential)
+    {'netlist': ['V1 1 0 step 3', 'R1 1 2 2', 'TP1 3 4 2 5 A 2 3 1 2', 'R2 5 0 1', 'R3 3 0 4', 'R4 4 0 5'],
+     'tags': ['corpus', 'wires', 'TP'], 's0': '3/2', 'methods': ['DM', 'LU']},
     # phasor (ac) analysis over the Gaussian rationals: sources with quarter-turn phases, two frequencies + dc
     {'netlist': ['I1 1 0 ac 2 {pi/2} 3', 'R1 1 2 2', 'C1 2 0 {1/3}', 'R2 1 0 1'], 'tags': ['corpus', 'ac'], 's0': '2/1', 'methods': ['DM', 'LU'], 'api': False},
     {'netlist': ['V1 1 0 ac 5 {-pi/2} 2', 'R1 1 2 2', 'L1 2 3 2', 'I1 3 0 ac 2 {pi/2} 2', 'R2 3 0 1', 'V2 3 4 dc 2', 'R3 4 0 1',
@@ -669,7 +681,7 @@ def run(tier='quick', replay=None):
                        'specification coq/theory/Circuit.v (physical semantics of each component kind)',
                        'hand models coq/theory/MNA.v, coq/props/C01model.v (validated by correspondence)',
                        'oracles (modelled, contract checked per case): sympy matrix solve, eps -> 0 limit',
-                       'node merging: model coq/theory/WireMerge.v (merge), the kernel check kern_okb is evaluated in Coq on the indices Lcapy used; which components imply a wire (W; nodes 1 and 3 of TL/TP) is mirrored by hand from NetlistMixin.equipotential_nodes']
+                       'node merging: model coq/theory/WireMerge.v (merge), the kernel check kern_okb is evaluated in Coq on the indices Lcapy used; which components imply a wire is regenerated from NetlistMixin.equipotential_nodes by tools/tr_equipot.py (sha256 %s)' % core.sha256_file(os.path.join(core.VERIF, 'tools', 'tr_equipot.py'))[:16]]
         res.assumptions = ['characteristic-0 field with decidable equality',
                            'component parameters (Y, Z, Isc, Voc, gains) are inputs of the stamp theorems; their values per analysis kind are checked by the textbook oracle']
         log('translate')
@@ -692,6 +704,19 @@ def run(tier='quick', replay=None):
             res.failed_obl.append(('translate_sources', 'lcapy/oneport.py', str(e)))
             res.obligations += 1
             srct = None
+        WIRE_RULES[0] = None
+        res.obligations += 1
+        try:
+            got = EQP.translate(os.path.join(core.REPO, 'lcapy', 'netlistmixin.py'))
+            res.extra['wire_rules'] = [list(map(str, r_)) for r_ in got]
+            if got == SPEC_WIRE_RULES:
+                res.discharged += 1
+            else:
+                res.failed_obl.append(('wire_rule_is_documented_rule', 'lcapy/netlistmixin.py',
+                                       'NetlistMixin.equipotential_nodes joins %s; documented: %s' % (got, SPEC_WIRE_RULES)))
+        except EQP.Untranslatable as e:
+            res.failed_obl.append(('translate_equipotential_nodes', 'lcapy/netlistmixin.py', str(e)))
+        WIRE_RULES[0] = SPEC_WIRE_RULES
         SRC_OK[0] = False
         if srct is not None:
             w.write('SourcesGen.v', texts['SourcesGen.v'])
